@@ -109,6 +109,32 @@ def search(func, candidate, seed, tier, obligation=''):
             if got != hist or gmeta != meta:
                 return fail({'source_history': variant, 'operation': 'copyTransactionsFrom file->file'},
                             'identical history', 'differs: %r vs %r' % (got[-2:], hist[-2:]), cases)
+            # ---- iterator ranges of the source, and an incremental copy (first part, then the rest from tid + 1)
+            from .storage_checks import check_iterator_ranges
+            src = H.FileStorage(path, read_only=True)
+            cases += 1
+            r = check_iterator_ranges(src, hist, 'source history %d:' % variant)
+            if r:
+                src.close()
+                return fail({'source_history': variant, 'operation': 'iterator(start, stop)'}, 'model answer', r, cases)
+            for k in range(1, len(hist)):
+                cases += 1
+                dpath = os.path.join(d, 'inc%d.fs' % k)
+                dst = H.FileStorage(dpath, create=True)
+                dst.copyTransactionsFrom(src.iterator(None, hist[k - 1][0]))
+                last = dst.lastTransaction()
+                dst.copyTransactionsFrom(src.iterator(p64(u64(last) + 1)))
+                got = H.storage_history(dst)
+                dst.close()
+                for ext in ('', '.index', '.tmp', '.lock'):
+                    if os.path.exists(dpath + ext):
+                        os.remove(dpath + ext)
+                if got != hist:
+                    src.close()
+                    return fail({'source_history': variant, 'operation': 'copy of the first %d transactions, then of '
+                                 'iterator(start=last copied tid + 1)' % k}, 'identical history (%d transactions)'
+                                % len(hist), '%d transactions: tids %r' % (len(got), [t.hex() for t, _ in got]), cases)
+            src.close()
             # ---- recover the undamaged file
             out = os.path.join(d, 'rec.fs')
             with_alarm(20, lambda: fsrecover.recover(path, out, verbose=0, force=True))
@@ -171,6 +197,64 @@ def search(func, candidate, seed, tier, obligation=''):
                             return fail(inp, 'order unchanged', 'tids out of order', cases)
         finally:
             shutil.rmtree(d, ignore_errors=True)
+    r = blob_copy(cases)
+    return r
+
+
+def blob_copy(cases):
+    """a history with blob revisions, an undone blob rewrite (a back-pointer record that IS a blob revision) and a redo,
+    copied into another FileStorage with a blob directory: every blob revision of the source reads the same bytes"""
+    import transaction
+    import ZODB
+    from ZODB.blob import Blob
+    d = tempfile.mkdtemp(prefix='c17b-')
+    try:
+        st = H.FileStorage(os.path.join(d, 'src.fs'), create=True, blob_dir=os.path.join(d, 'src_blobs'))
+        db = ZODB.DB(st)
+        tm = transaction.TransactionManager()
+        conn = db.open(tm)
+
+        def write(text):
+            with conn.root()['b'].open('w') as f:
+                f.write(text)
+        conn.root()['b'] = Blob()
+        write(b'one')
+        tm.commit()
+        for text in (b'two', b'three'):
+            write(text)
+            tm.commit()
+            db.undo(db.undoLog(0, 1)[0]['id'], tm.get())
+            tm.commit()
+            conn.sync()
+        conn.root()['n'] = 1
+        tm.commit()
+        conn.close()
+        db.close()
+        src = H.FileStorage(os.path.join(d, 'src.fs'), read_only=True, blob_dir=os.path.join(d, 'src_blobs'))
+        dst = H.FileStorage(os.path.join(d, 'dst.fs'), create=True, blob_dir=os.path.join(d, 'dst_blobs'))
+        dst.copyTransactionsFrom(src)
+        try:
+            for t in src.iterator():
+                for r in t:
+                    if r.data and src.is_blob_record(r.data):
+                        cases += 1
+                        with open(src.loadBlob(r.oid, r.tid), 'rb') as f:
+                            want = f.read()
+                        try:
+                            with open(dst.loadBlob(r.oid, r.tid), 'rb') as f:
+                                got = f.read()
+                        except Exception as e:  # noqa
+                            got = '%s: %s' % (type(e).__name__, str(e)[:100])
+                        if got != want:
+                            return fail({'operation': 'copyTransactionsFrom file+blobs -> file+blobs',
+                                         'source_history': 'blob created, rewritten, rewrite undone (twice), other commit',
+                                         'blob_revision': r.tid.hex(), 'is_back_pointer_record': r.data_txn is not None},
+                                        'blob bytes %r in the copy' % want, 'copy gives %r' % (got,), cases)
+        finally:
+            src.close()
+            dst.close()
+    finally:
+        shutil.rmtree(d, ignore_errors=True)
     return {'found': False, 'cases': cases}
 
 
